@@ -30,6 +30,7 @@ from ..screens import make_screen  # noqa: E402
 from batchie.data import Screen, ScreenSubset, filter_dataset_to_unique_treatments  # noqa: E402
 
 PROP = "C14"
+EPILOGUE_ITEMS = 2
 LEVEL = "model_checking"
 ENGINE = "E3-state-bfs"
 TECHNIQUE = "explicit-state BFS + n-ary closure over real view objects vs integer bitsets"
